@@ -184,6 +184,10 @@ pub enum ScriptOp {
     FillCluster(usize),
     /// one commit deleting n committed keys of that cluster
     DeleteCluster(usize),
+    /// one commit that deletes EVERY committed key of the cluster 0xC3 0x5A 00…… and inserts n fresh keys whose 19th bit is `half`:
+    /// all keys of the cluster share 18 bits (one depth-3 page), so the commit empties one first-layer slot of that page
+    /// and fills the other one
+    FlipCluster(usize, u8),
 }
 
 /// directed histories selectable with `--focus script-…`
@@ -216,6 +220,10 @@ pub fn script_for(focus: &str) -> Option<Vec<ScriptOp>> {
         // a sub-trie two page levels down crosses the page-elision threshold (20 leaves) upwards, downwards and
         // upwards again: pages that were elided get materialised (their WAL diff must carry the reconstructed
         // nodes) and materialised ones get elided
+        // a stored depth-3 page whose keys all live under ONE of its two first-layer slots; a single commit deletes them all and inserts
+        // more than the elision threshold under the OTHER slot (the emptied slot is written while its sibling is still a terminator;
+        // the page stays stored), back and forth, across a reopen
+        "script-clear-then-change" => Some(vec![Fill(40, 40), FlipCluster(25, 0), FlipCluster(25, 1), FlipCluster(23, 0), Reopen, FlipCluster(26, 1), FlipCluster(21, 0)]),
         "script-elision-threshold" => Some(vec![Fill(40, 40), FillCluster(19), FillCluster(2), DeleteCluster(4), FillCluster(6), Reopen, FillCluster(1), DeleteCluster(9), FillCluster(12)]),
         _ => None,
     }
@@ -1569,6 +1577,22 @@ impl<'a> Engine<'a> {
                 }
                 ScriptOp::DeleteCluster(n) => {
                     let ws: Vec<(Key, Option<Val>)> = self.committed.keys().filter(|k| k[0] == 0xC3 && k[1] == 0x5A).take(n).map(|k| (*k, None)).collect();
+                    if let Some(fid) = self.session_to_fin_with(&[], 6, 0, Some(ws)) {
+                        self.commit_fin(fid, false);
+                    }
+                }
+                ScriptOp::FlipCluster(n, half) => {
+                    let in_cluster = |k: &Key| k[0] == 0xC3 && k[1] == 0x5A && k[2] & 0xC0 == 0;
+                    let mut ws: Vec<(Key, Option<Val>)> = self.committed.keys().filter(|k| in_cluster(k)).map(|k| (*k, None)).collect();
+                    for _ in 0..n {
+                        let mut k = self.rng.bytes32();
+                        k[0] = 0xC3;
+                        k[1] = 0x5A;
+                        k[2] = (k[2] & 0x1F) | (half << 5);
+                        ws.push((k, Some(gen_value(&mut self.rng, false))));
+                    }
+                    ws.sort();
+                    ws.dedup_by(|a, b| a.0 == b.0);
                     if let Some(fid) = self.session_to_fin_with(&[], 6, 0, Some(ws)) {
                         self.commit_fin(fid, false);
                     }
